@@ -1507,6 +1507,8 @@ class Frame(object):
             return I.arith(_BINOP[type(e.op)], a, b)
         if isinstance(e, ast.UnaryOp):
             v = self.eval(e.operand)
+            if isinstance(v, SOpt):
+                v = I.payload(v)
             if isinstance(e.op, ast.Not):
                 t = I.truth(v)
                 return (not t) if isinstance(t, bool) else Bo(mk_not(t.e))
